@@ -52,20 +52,24 @@ def apply_variant(model, v):
 
 
 def run_rules(mod, model):
-    """-> (set of finding keys, set of rule ids with findings, error)"""
+    """-> (set of finding keys, error text or None); like core.run_check a
+    rule that cannot decide does not hide the findings of the others."""
     keys = set()
-    try:
-        for rule in mod.RULES:
+    errs = []
+    for rule in mod.RULES:
+        try:
             res = rule(model)
             if not isinstance(res, list):
                 res = [res]
             for r in res:
                 r.check_controls()
-                for f in r.findings:
-                    keys.add((f.rule, f.key))
-    except AnalysisError as e:
-        return keys, str(e)
-    return keys, None
+        except AnalysisError as e:
+            errs.append(str(e))
+            continue
+        for r in res:
+            for f in r.findings:
+                keys.add((f.rule, f.key))
+    return keys, ('; '.join(errs) if errs else None)
 
 
 def _eval_variant(args):
